@@ -105,6 +105,21 @@ fn main() {
             }
             println!("}}");
         }
+        "layout-table" => {
+            // layout-table <layout>: for every key the decoded value under all 512 modifier sets x 2 modes (mode-major), as JSON
+            let l = &args[2];
+            println!("{{");
+            for (ki, (n, k)) in KEYCODES.iter().enumerate() {
+                let mut v = Vec::with_capacity(1024);
+                for h in [HandleControl::Ignore, HandleControl::MapLettersToUnicode] {
+                    for m in cellcheck::all_mods() {
+                        v.push(format!("\"{}\"", fmt_decoded(layout_map(l, *k, &m, h).expect("unknown layout"))));
+                    }
+                }
+                println!("\"{}\": [{}]{}", n, v.join(","), if ki + 1 == KEYCODES.len() { "" } else { "," });
+            }
+            println!("}}");
+        }
         "layouts" => {
             // layout key -> [base, shift, altgr] at the three plain levels, Ctrl mapping off
             let m0 = Modifiers { lshift: false, rshift: false, lctrl: false, rctrl: false, numlock: true, capslock: false, lalt: false, ralt: false, rctrl2: false };
